@@ -45,7 +45,8 @@ pub fn gen_factory_cfg(s: &mut Src, min_denoms: usize, max_denoms: usize, allow_
         denoms.push(FIRST_TOKEN_ADDR.to_string());
     }
     let nd = denoms.len();
-    let native_decimals: Vec<u8> = (0..nd).map(|_| s.below(19) as u8).collect();
+    // the factory accepts any u8 for a native denom: one in eight is above 18 (up to 255)
+    let native_decimals: Vec<u8> = (0..nd).map(|_| if s.chance(1, 8) { 19 + s.below(237) as u8 } else { s.below(19) as u8 }).collect();
     let unregistered: Vec<usize> = if allow_unregistered { (0..nd).filter(|_| s.chance(1, 6)).collect() } else { vec![] };
     let token_decimals: Vec<u8> = (0..nt).map(|_| s.below(19) as u8).collect();
     WorldCfg { native_decimals, token_decimals, pairs: vec![], n_actors: 2, n_bystanders: 0, initial_balance: 1 << 60, allowance: 0, denoms, unregistered, staged_decimals: vec![] }
